@@ -30,6 +30,10 @@ pub(crate) mod exact_h {
 pub(crate) mod uni_h {
     include!(concat!(env!("NUCLEO_VERIF_DIR"), "/matcher/uni_h.rs"));
 }
+#[allow(dead_code, unused_imports, unused_macros, unused_variables, unused_assignments, unexpected_cfgs)]
+pub(crate) mod pattern_h {
+    include!(concat!(env!("NUCLEO_VERIF_DIR"), "/matcher/pattern_h.rs"));
+}
 #[cfg(not(kani))]
 #[allow(dead_code, unused_imports, unused_macros, unused_variables, unused_assignments, unexpected_cfgs)]
 pub(crate) mod replay {
